@@ -8,8 +8,15 @@ inlined or shared.  JSON writes every collection object as a structure of its ow
 nevertheless compared with the same `featContentC` as for XMI (`Spec/RoundTripColl.lean`), which is what the properties speak
 about and lets the two theorems be composed (C16).
 
-`JCollFs` (`Spec/RoundTripJsonCollFrag.lean`) is the fragment; it contains `CollFs ∧ JsonFs` (the common fragment of both
-formats) and may admit more (e.g. null elements of FSArrays, which JSON can express).
+`JCollFs` (`Spec/RoundTripJsonCollFrag.lean`) is the fragment; it contains the common fragment of both formats,
+`CollFs ∧ JsonFs`, up to one case (J1): an array *object* whose `elements` is `None` — admitted by the XMI fragment for
+non-string arrays written as elements of their own — comes back from JSON with `elements = []` (no `%ELEMENTS` member is
+written, the reader makes the empty list of it); counterexample `cxj_obj_elements_none` (a shared IntegerArray) and
+`cxj_obj_elements_none_fs` in `Spec/RoundTripJsonCollCheck.lean`: the XMI test accepts, the JSON round trip reports the
+`elements` feature of the array object.  Hence the extra hypothesis `ArrElemsSome` of `jcollFs_of_collFs`.
+The fragment admits more than `CollFs`: null elements of FSArrays, arbitrary bytes and float tokens, empty inlined
+StringLists, null heads, … (listed with evaluated examples in the two `Spec/RoundTripJsonColl*.lean` files).
+The second condition of the fragment, (J2) "the spine of an inlined list ends", is part of `CollFs` as well (S7).
 -/
 import CassisModel.Proofs.RoundTripJsonColl
 
@@ -38,9 +45,17 @@ theorem json_roundtrip_coll (K : Consts) (ts : TypeSystem) (cass : List Cas) (ci
       (∀ nv ∈ c.views, nv.2.sofa.xid < ld.cas.nextXid ∧ nv.2.sofa.sofaNum < ld.cas.nextSofaNum) :=
   json_roundtrip_coll_aux K ts cass ci c hp tsIdx ci' doc st hc hwf hsave hcoll hids hdis hmem hmok
 
-/-- the common fragment of both formats is part of it -/
+/-- the common fragment of both formats is part of it, except for array objects with `elements = None` (J1) -/
 theorem jcollFs_of_collFs (K : Consts) (ts : TypeSystem) (c : Cas) (ci : Nat) (hp : Heap) (a : Nat)
-    (h : CollFs K ts c ci hp a) (hj : JsonFs ts hp a) : JCollFs K ts c ci hp a :=
-  jcollFs_of_collFs_aux K ts c ci hp a h hj
+    (h : CollFs K ts c ci hp a) (hj : JsonFs ts hp a) (he : ArrElemsSome hp a) : JCollFs K ts c ci hp a :=
+  jcollFs_of_collFs_aux K ts c ci hp a h hj he
+
+/-- … in particular the flat fragment of `json_roundtrip_flat` -/
+theorem jcollFs_of_flatFs (K : Consts) (ts : TypeSystem) (c : Cas) (ci : Nat) (hp : Heap) (a : Nat)
+    (h : FlatFs K ts c ci hp a) (hj : JsonFs ts hp a) : JCollFs K ts c ci hp a :=
+  jcollFs_of_flatFs_aux K ts c ci hp a h hj
+
+#print axioms json_roundtrip_coll
+#print axioms jcollFs_of_collFs
 
 end Cassis.Json
